@@ -39,7 +39,7 @@ for f in BINARY:
     CALLS.append((f + "/out+where", "F.%s(x, y, out=O, where=M)" % f))
     CALLS.append((f + "/empty", "F.%s(e, y)" % f))
 for f in ("sum", "mean", "prod", "max", "min", "amax", "amin", "var", "std"):
-    for kw in ("", "axis=0", "axis=-1, keepdims=True", "axis=(0, 1)"):
+    for kw in ("", "axis=0", "axis=-1, keepdims=True", "axis=(0, 1)", "axis=(-1,)", "axis=(-2, -1), keepdims=True", "axis=(1, 0)"):
         CALLS.append(("%s/%s" % (f, kw), "F.%s(x%s)" % (f, ", " + kw if kw else "")))
     CALLS.append(("%s/noncontig" % f, "F.%s(xt, axis=0)" % f))
 for f in ("var", "std"):
@@ -59,6 +59,8 @@ CALLS += [
     ("repeat/seq", "F.repeat(y, [1, 0, 2])"), ("roll", "F.roll(x, 1, axis=1)"), ("roll/flat", "F.roll(x, 2)"),
     ("concatenate", "F.concatenate([x, z], axis=0)"), ("concatenate/None", "F.concatenate([x, y], axis=None)"), ("stack", "F.stack([x, z], axis=1)"),
     ("ravel", "F.ravel(xt)"), ("atleast_1d", "F.atleast_1d(s)"), ("atleast_2d", "F.atleast_2d(y)"), ("atleast_3d", "F.atleast_3d(x)"),
+    ("m/sum/kd", "x.sum(axis=-1, keepdims=True)"), ("m/mean/tuple", "x.mean(axis=(0, 1))"), ("m/max/kd", "x.max(axis=-2, keepdims=True)"),
+    ("m/var/kd", "x.var(axis=(1,), ddof=1, keepdims=True)"), ("m/std/ddof", "x.std(axis=-1, ddof=1)"), ("m/prod/kd", "x.prod(axis=0, keepdims=True)"),
     ("m/sum", "x.sum(axis=1)"), ("m/mean", "x.mean()"), ("m/std", "x.std(axis=0)"), ("m/var", "x.var(ddof=1)"), ("m/max", "x.max(axis=0)"),
     ("m/min", "x.min()"), ("m/prod", "x.prod(axis=1)"), ("m/cumsum", "x.cumsum(axis=1)"), ("m/cumprod", "x.cumprod()"), ("m/reshape", "x.reshape(3, 2)"),
     ("m/T", "x.T"), ("m/flatten", "xt.flatten()"), ("m/squeeze", "x[None].squeeze()"), ("m/swapaxes", "x.swapaxes(0, 1)"), ("m/transpose", "x.transpose(1, 0)"),
